@@ -58,7 +58,7 @@ CliVerify ==
     /\ (E.exit = 0) = ~E.altered
 
 TabRec(e) == [n |-> e.n, start |-> e.start, cls |-> e.cls, delta |-> e.delta,
-              match |-> SeqSet(e.match), can |-> SeqSet(e.can), always |-> SeqSet(e.always)]
+              match |-> SeqSet(e.match), can |-> SeqSet(e.can), always |-> SeqSet(e.always), eof |-> [i \in 1..e.n |-> 0]]
 CliGrep ==
     /\ IsEvent("CliGrep")
     /\ E.exit = 0
